@@ -28,7 +28,23 @@ fn strategy() -> impl Strategy<Value = History> {
         (prop_oneof![2 => Just(StoreKind::Memory), 1 => Just(StoreKind::OptionSlot), 1 => Just(StoreKind::Ref)], Just(Disc::ForcedDiscoverable), cm::auth_cfg(), proptest::collection::vec((any::<u8>(), proptest::option::of(any::<u32>()), any::<bool>()), 0..3), ops(sites, 13))
             .prop_map(move |(store, disc, cfg, pre, ops)| History { store, disc, cfg, preload: pre.into_iter().map(|(s, c, u)| (s2[s as usize % s2.len()], c, u)).collect(), ops })
     });
-    prop_oneof![3 => multi, 2 => single]
+    // MemoryStore with several RPs (incl. parent/child domains): only absent/empty allow lists, because its lookup by
+    // id list ignores the RP (known finding D5 under C05)
+    let multi_mem = (0usize..3).prop_flat_map(|g| {
+        let sites = [vec![0usize, 6, 1, 8], vec![2usize, 7, 0], vec![5usize, 3, 6]][g].clone();
+        let s2 = sites.clone();
+        (cm::auth_cfg(), proptest::collection::vec((any::<u8>(), proptest::option::of(any::<u32>()), any::<bool>()), 0..4), ops(sites, 13)).prop_map(move |(cfg, pre, mut ops)| {
+            for o in ops.iter_mut() {
+                if let Op::Auth(a) = o {
+                    if matches!(a.allow, cm::AllowSel::Ids(_)) {
+                        a.allow = if a.uv % 2 == 0 { cm::AllowSel::Absent } else { cm::AllowSel::Empty };
+                    }
+                }
+            }
+            History { store: StoreKind::Memory, disc: Disc::ForcedDiscoverable, cfg, preload: pre.into_iter().map(|(s, c, u)| (s2[s as usize % s2.len()], c, u)).collect(), ops }
+        })
+    });
+    prop_oneof![3 => multi, 2 => single, 2 => multi_mem]
 }
 
 fn check(ctx: &mut Ctx, h: &History) -> Result<(), String> {
